@@ -96,8 +96,7 @@ def string_cases(prog, cr, rule="R18.4"):
                 return ("unit is not the one registered under the symbol", repr(v))
             return judge_qty(o, amount=P, max_depth=1)
         return judge
-    State.exc_is_qerr = lambda self, n: n in ("QuantityError", "IncompatibleUnitsError", "UnitConversionError",
-                                              "UndefinedResultError")
+    State.exc_is_qerr = lambda self, n: exc_is_a(n, {"QuantityError"})
     all_outs = []
     for factory in ("generic", "own type"):
         for wu in (False, True):
